@@ -122,9 +122,61 @@ class K:
 class KS:
     def __init__(self):
         self.v = 1
+    @icontract.require(lambda self, x: c("dp", x), error=errfac_m)
+    def _drain(self, x):
+        # protected: not wrapped by the invariant checker, but it carries its own contract with an error factory
+        cross("body:_drain")
+        return R
     def __repr__(self):
         cross("repr:KS")
         return "KS()"
+
+# ---- in-body differential: what a probe observes inside a method body must not change because another checked
+# ---- call was made (and ended) in between
+BD = {}
+CACHE = {}
+def _trace_of(fn):
+    n = len(TRACE)
+    try:
+        fn()
+        out = "ret"
+    except BaseException as e:
+        out = type(e).__name__
+    return (tuple(TRACE[n:]), out)
+@icontract.invariant(lambda self: c("fw", self))
+class FW:
+    # flyweight without __init__: __new__ returns the existing instance for a known key
+    def __new__(cls, key):
+        if key in CACHE:
+            return CACHE[key]
+        o = super().__new__(cls)
+        o.key = key
+        CACHE[key] = o
+        return o
+    def pub(self):
+        cross("body:FW.pub")
+        return R
+    def outer(self, action):
+        cross("body:FW.outer")
+        BD["before"] = _trace_of(self.pub)
+        ACTIONS[action](self)
+        BD["after"] = _trace_of(self.pub)
+        return R
+def _viol_caught(self):
+    T["p0"] = False
+    try:
+        f(Arg())
+    except BaseException:
+        pass
+    T.pop("p0", None)
+ACTIONS = {
+    "lookup_self": lambda self: FW(self.key),
+    "other_instance": lambda self: FW("other").pub(),
+    "function": lambda self: f(Arg()),
+    "construct_K": lambda self: K(Arg()),
+    "violation_caught": _viol_caught,
+    "nothing": lambda self: None,
+}
 
 def guard(x):
     # user code that makes a checked call itself and survives whatever it raises
@@ -172,6 +224,7 @@ CALLS = {
     "m": (False, ["i0", "i1", "mp", "mq"]),
     "am": (True, ["i0", "i1", "amp", "amq"]),
     "set": (False, ["s0"]),
+    "drain": (False, ["dp"]),
     "nest": (False, ["p0", "q1", "nq"]),
     "w": (False, ["wb", "wc"]),
     "aw": (True, ["awb", "awc"]),
@@ -203,6 +256,8 @@ class Driver:
         if call == "set":
             self.ks.v = x
             return self.ns["R"]
+        if call == "drain":
+            return self.ks._drain(x)
         if call == "nest":
             return self.ns["nest"](x)
         if call == "w":
@@ -413,8 +468,37 @@ def pristine_probes(drv):
     return core.fresh_ctx_run(go)
 
 
+def check_body_differential(acc):
+    ns = core.load_source(SRC, "c11bd")
+    try:
+        for action in sorted(ns["ACTIONS"]):
+            def go():
+                ns["T"].clear()
+                ns["CACHE"].clear()
+                ns["FAULT"]["armed"] = False
+                del ns["TRACE"][:]
+                w = ns["FW"]("w")
+                ns["BD"].clear()
+                w.outer(action)
+                return dict(ns["BD"])
+            bd = core.fresh_ctx_run(go)
+            acc.case(("body_differential", action), True, len(bd.get("before", ((),))[0]) + len(bd.get("after", ((),))[0]), bd.get("after", (None, None))[1])
+            if bd.get("before") != bd.get("after"):
+                acc.violation(core.Violation(
+                    PROP, "nested_call_changed_suspension_state", {"call": "FW.outer", "action": action},
+                    "inside the body of a public method, the probe self.pub() observed {} before and {} after the nested checked call "
+                    "'{}' (which ended normally): the suspension state was not restored".format(bd.get("before"), bd.get("after"), action),
+                    spec={"body_differential": action}, script=SRC))
+        acc.sample({"body_differential": sorted(ns["ACTIONS"])}, cap=1)
+    finally:
+        core.unload_source(ns)
+
+
 def work(chunk):
     acc = core.Acc()
+    if any(item == "body_differential" for item in chunk):
+        check_body_differential(acc)
+        chunk = [item for item in chunk if item != "body_differential"]
     drv = Driver()
     pristine = pristine_probes(drv)
     # determinism self-check: the pristine observations must be reproducible
@@ -433,7 +517,7 @@ def work(chunk):
 
 def run(tier, t0):
     sc = scenarios(tier)
-    items = list(sc)
+    items = list(sc) + ["body_differential"]
     if tier == "thorough":
         # sequences of two faulted calls: the second one faulted at each of its first 8 crossings
         for s in sc:
@@ -463,6 +547,12 @@ def replay(path):
     acc = core.Acc()
     drv = Driver()
     pristine = pristine_probes(drv)
+    if "body_differential" in data:
+        check_body_differential(acc)
+        for v in acc.violations[:5]:
+            print("VIOLATION property={} replay={}".format(PROP, path))
+            print(" ", v.symptom, v.detail[:400])
+        return 1 if acc.violations else 0
     check_scenario(drv, pristine, (data["call"], data["falsy"]), acc, second=tuple(data["second"]) if data.get("second") else None)
     for v in acc.violations[:5]:
         print("VIOLATION property={} replay={}".format(PROP, path))
